@@ -193,10 +193,22 @@ def run(repo, chk):
     solve = [c for c in calls(rs) if last_attr(c) in ("ENsolveH", "ENusehydfile")]
     close = [c for c in calls(rs) if last_attr(c) == "ENclose"]
     chk.expect(order_ok and bool(solve) and bool(close) and close[0].lineno < rr[0].lineno, "R-C03-2", "order: write INP, open, solve, close, read results", loc(rs))
-    chk.floor("R-C03-2", 6)
+    # the clock the two engines share: START CLOCKTIME written into the INP must read back (by EPANET's 12-hour convention, which
+    # _clock_time_to_sec implements) as options.time.start_clocktime, or clock-time controls fire 12 h apart in the two simulators
+    from ._shared import clocktime_round_trip
+    rows, wtf, rdf = clocktime_round_trip(repo)
+    chk.fn(wtf, rdf)
+    badrows = [(t, txt, back) for t, txt, back in rows if back != t]
+    for half, hours in (("AM", range(0, 12)), ("PM", range(12, 24))):
+        hb = [b for b in badrows if b[0] // 3600 in hours]
+        chk.expect(not hb, "R-C03-2", "start_clocktime in the %s half of the day reaches EPANET unchanged through the INP file" % half, loc(wtf),
+                   "WNTRSimulator uses options.time.start_clocktime directly, EpanetSimulator what the INP says", found=("%r reads back as %s s (written for %d s)" % (hb[0][1], hb[0][2], hb[0][0])) if hb else None)
+    chk.floor("R-C03-2", 8)
 
 
 WITNESSES = [
+    dict(name="noon-hour-written-as-am", file=EIO, old="        if hrs < 12:\n            time_format = ' AM'\n        else:\n            hrs -= 12\n            time_format = ' PM'",
+         new="        time_format = ' AM'\n        if hrs > 12:\n            hrs -= 12\n            time_format = ' PM'", rule="R-C03-2"),
     dict(name="head-converted-as-pressure", file=EIO, old="self.results.node['head'] = HydParam.HydraulicHead._to_si(self.flow_units, df['head'])",
          new="self.results.node['head'] = HydParam.Pressure._to_si(self.flow_units, df['head'])", rule="R-C03-1"),
     dict(name="demand-not-converted", file=EIO, old="self.results.node['demand'] = HydParam.Demand._to_si(self.flow_units, df['demand'])", new="self.results.node['demand'] = df['demand']", rule="R-C03-1"),
